@@ -228,6 +228,14 @@ theorem fair_schedule_finishes (cfg : Cfg) (sched : List Nat) (rounds : List (Li
   rw [exec_append]
   exact rounds_finish rounds hfair (invA_reach cfg sched) hlen
 
+/-- the completion phase of the model driver (plain round-robin, `measure (init cfg) + 1` rounds,
+    started after any schedule) ends with every task finished — so the `final …` summary the tie
+    compares is always taken in a final state. -/
+theorem round_robin_finishes (cfg : Cfg) (sched : List Nat) :
+    allFin cfg (finish cfg (measure cfg (init cfg) + 1) (exec cfg sched (init cfg))) = true :=
+  finish_allFin _ (invA_reach cfg sched)
+    (Nat.le_succ_of_le (measure_exec_le cfg sched (init cfg)))
+
 /-- the number of rounds needed is bounded by the initial measure, a function of the
     configuration only: `Σ_tasks (1 + Σ_lookups (suspensions + 3))`. -/
 theorem measure_bounded (cfg : Cfg) (sched : List Nat) :
